@@ -744,7 +744,136 @@ def extract_flags(tree):
     attrs = [c.args[1].value for c in find_calls(body_nodoc(fn), "hasattr")]
     expect(attrs == ["polygon", "polygons", "lineString"], f"toPolygon: attribute list {attrs}")
     expect(bool(find_calls(body_nodoc(fn), "needsSampling")), "toPolygon: lazy operands are refused")
+    F["compTrueStructural"] = composite_predicates(tree)
     return F
+
+
+def gen_over(v, fn_name, method, iter_ok):
+    """`<fn_name>(<x>.<method>(point) for <x> in <iter>)` with `iter_ok(iter)`"""
+    if not (isinstance(v, ast.Call) and is_name(v.func, fn_name) and len(v.args) == 1 and isinstance(v.args[0], ast.GeneratorExp)):
+        return False
+    g = v.args[0]
+    if len(g.generators) != 1 or g.generators[0].ifs or not isinstance(g.generators[0].target, ast.Name):
+        return False
+    x = g.generators[0].target.id
+    e = g.elt
+    return (isinstance(e, ast.Call) and isinstance(e.func, ast.Attribute) and e.func.attr == method and is_name(e.func.value, x)
+            and len(e.args) == 1 and is_name(e.args[0], "point") and iter_ok(g.generators[0].iter))
+
+
+def attr_chain(n):
+    parts = []
+    while isinstance(n, ast.Attribute):
+        parts.append(n.attr)
+        n = n.value
+    if isinstance(n, ast.Name):
+        parts.append(n.id)
+        return ".".join(reversed(parts))
+    return None
+
+
+def and_not(v, a_chain, b_chain, method):
+    """`<a>.<method>(point) and not <b>.<method>(point)`"""
+    def call_on(c, chain):
+        return (isinstance(c, ast.Call) and isinstance(c.func, ast.Attribute) and c.func.attr == method
+                and attr_chain(c.func.value) == chain and len(c.args) == 1 and is_name(c.args[0], "point"))
+    return (isinstance(v, ast.BoolOp) and isinstance(v.op, ast.And) and len(v.values) == 2 and call_on(v.values[0], a_chain)
+            and isinstance(v.values[1], ast.UnaryOp) and isinstance(v.values[1].op, ast.Not) and call_on(v.values[1].operand, b_chain))
+
+
+def class_method(tree, cls, name):
+    node = get_def(tree, cls, REL)
+    for ch in node.body:
+        if isinstance(ch, ast.FunctionDef) and ch.name == name:
+            return ch
+    return None
+
+
+def one_return(fn, where):
+    body = body_nodoc(fn)
+    expect(len(body) == 1 and isinstance(body[0], ast.Return), f"{where}: single return expected")
+    return body[0].value
+
+
+def composite_predicates(tree):
+    """containsPoint of the composite regions has the modelled (footprint) shape; -> do they define
+    `_trueContainsPoint` structurally (all / any / and-not of the parts' `_trueContainsPoint`)?"""
+    foot_regions = lambda it: attr_chain(it) == "self.footprint.regions"
+    own_regions = lambda it: attr_chain(it) == "self.regions"
+    v = one_return(class_method(tree, "IntersectionRegion", "containsPoint"), "IntersectionRegion.containsPoint")
+    expect(gen_over(v, "all", "containsPoint", foot_regions), "IntersectionRegion.containsPoint: all(... for region in self.footprint.regions)")
+    v = one_return(class_method(tree, "UnionRegion", "containsPoint"), "UnionRegion.containsPoint")
+    expect(gen_over(v, "any", "containsPoint", foot_regions), "UnionRegion.containsPoint: any(... for region in self.footprint.regions)")
+    v = one_return(class_method(tree, "DifferenceRegion", "containsPoint"), "DifferenceRegion.containsPoint")
+    expect(and_not(v, "self.footprint.regionA", "self.footprint.regionB", "containsPoint"),
+           "DifferenceRegion.containsPoint: footprint.regionA.containsPoint(point) and not footprint.regionB.containsPoint(point)")
+    for c in ("IntersectionRegion", "UnionRegion", "DifferenceRegion"):
+        fp = class_method(tree, c, "footprint")
+        expect(fp is not None and call_name(one_return(fp, f"{c}.footprint")) == "convertToFootprint",
+               f"{c}.footprint is not convertToFootprint(self)")
+    # convertToFootprint: polygons -> footprint; intersections and differences recursively; everything else (unions!) as is
+    fn = get_def(tree, "convertToFootprint", REL)
+    body = body_nodoc(fn)
+    handled = []
+    for st in body[:-1]:
+        expect(isinstance(st, ast.If) and not st.orelse and call_name(st.test) == "isinstance" and is_name(st.test.args[0], "region")
+               and isinstance(st.test.args[1], ast.Name), "convertToFootprint: chain of isinstance(region, K) tests")
+        handled.append(st.test.args[1].id)
+    expect(handled == ["PolygonalRegion", "IntersectionRegion", "DifferenceRegion"], f"convertToFootprint handles {handled}")
+    expect(isinstance(body[-1], ast.Return) and is_name(body[-1].value, "region"), "convertToFootprint: other regions returned as is")
+    r0 = returns(body[0].body)
+    expect(len(r0) == 1 and attr_chain(r0[0].value) == "region.footprint", "convertToFootprint: polygon -> region.footprint")
+    expect(len(find_calls(body[1].body, "convertToFootprint")) == 1 and call_name(returns(body[1].body)[0].value) == "IntersectionRegion",
+           "convertToFootprint: intersection rebuilt from the footprints of its parts")
+    expect(len(find_calls(body[2].body, "convertToFootprint")) == 2 and call_name(returns(body[2].body)[0].value) == "DifferenceRegion",
+           "convertToFootprint: difference rebuilt from the footprints of its parts")
+    # Region._trueContainsPoint = containsPoint
+    v = one_return(get_def(tree, "Region._trueContainsPoint", REL), "Region._trueContainsPoint")
+    expect(call_name(v) == "self.containsPoint" and is_name(v.args[0], "point"), "Region._trueContainsPoint is not self.containsPoint(point)")
+    ms = {c: class_method(tree, c, "_trueContainsPoint") for c in ("IntersectionRegion", "UnionRegion", "DifferenceRegion")}
+    if all(m is None for m in ms.values()):
+        return False
+    expect(all(m is not None for m in ms.values()), "only some composite regions define _trueContainsPoint")
+    expect(gen_over(one_return(ms["IntersectionRegion"], "IntersectionRegion._trueContainsPoint"), "all", "_trueContainsPoint", own_regions),
+           "IntersectionRegion._trueContainsPoint: all(r._trueContainsPoint(point) for r in self.regions)")
+    expect(gen_over(one_return(ms["UnionRegion"], "UnionRegion._trueContainsPoint"), "any", "_trueContainsPoint", own_regions),
+           "UnionRegion._trueContainsPoint: any(r._trueContainsPoint(point) for r in self.regions)")
+    expect(and_not(one_return(ms["DifferenceRegion"], "DifferenceRegion._trueContainsPoint"), "self.regionA", "self.regionB", "_trueContainsPoint"),
+           "DifferenceRegion._trueContainsPoint: regionA._trueContainsPoint(point) and not regionB._trueContainsPoint(point)")
+    return True
+
+
+WS_REL = "src/scenic/core/workspaces.py"
+WS_METHODS = ["intersect", "intersects", "difference", "union", "containsPoint", "containsObject", "containsRegionInner",
+              "distanceTo", "projectVector", "uniformPointInner", "AABB", "dimensionality", "size"]
+
+
+def extract_workspace():
+    """for each region method of Workspace: is it `return self.region.<same>(<same arguments in order>)`?"""
+    src, tree = load(WS_REL)
+    node = get_def(tree, "Workspace", WS_REL)
+    bases = [b.id for b in node.bases if isinstance(b, ast.Name)]
+    expect(bases == ["Region"], "Workspace no longer derives from Region")
+    out = []
+    for m in WS_METHODS:
+        fn = None
+        for ch in node.body:
+            if isinstance(ch, ast.FunctionDef) and ch.name == m:
+                fn = ch
+        ok = False
+        if fn is not None:
+            body = body_nodoc(fn)
+            params = [a.arg for a in fn.args.args][1:]
+            is_prop = any(is_name(d, "property") for d in fn.decorator_list)
+            if len(body) == 1 and isinstance(body[0], ast.Return) and body[0].value is not None:
+                v = body[0].value
+                if is_prop:
+                    ok = attr_chain(v) == f"self.region.{m}" and not params
+                else:
+                    ok = (isinstance(v, ast.Call) and attr_chain(v.func) == f"self.region.{m}" and not v.keywords
+                          and [getattr(a, "id", None) for a in v.args] == params)
+        out.append((m, ok))
+    return out
 
 
 def is_point_z(n):
@@ -808,7 +937,7 @@ def extract():
               "AllRegion", "EmptyRegion"):
         expect(bases.get(c) == ["Region"], f"{c} no longer derives directly from Region")
     expect(bases.get("MeshVolumeRegion") == ["MeshRegion"] and bases.get("MeshSurfaceRegion") == ["MeshRegion"], "mesh class hierarchy")
-    return {"table": table, "generic": extract_generic(tree), "flags": extract_flags(tree)}
+    return {"table": table, "generic": extract_generic(tree), "flags": extract_flags(tree), "workspace": extract_workspace()}
 
 
 def lean_clauses(cs):
@@ -829,7 +958,8 @@ def to_lean(d):
              "    discAABBZ := .%s," % F["discAABBZ"],
              "    lineContainsChecksZ := %s," % lean_bool(F["lineContainsChecksZ"]),
              "    projectAxis1 := %s," % lean_bool(F["projectAxis1"]),
-             "    fromShapelyPassesZ := %s }" % lean_bool(F["fromShapelyPassesZ"]),
+             "    fromShapelyPassesZ := %s," % lean_bool(F["fromShapelyPassesZ"]),
+             "    compTrueStructural := %s }" % lean_bool(F["compTrueStructural"]),
              "",
              "/-- the `isinstance` chains of every class's intersect / union / difference / intersects, in source order -/",
              "def clsTable : Kind → Op → Option (List Clause)"]
@@ -839,7 +969,11 @@ def to_lean(d):
     lines += ["", "/-- the generic methods of `Region` -/", "def genericTable : Op → List Clause"]
     for op in OPS:
         lines.append(f"  | .{op} => {lean_clauses(d['generic'][op])}")
-    lines += ["", "def table : Table := ⟨clsTable, genericTable⟩", "", "end Scenic.Gen.RegionOps"]
+    lines += ["", "def table : Table := ⟨clsTable, genericTable⟩", "",
+              "/-- src/scenic/core/workspaces.py: which region methods of `Workspace` hand the call on to `self.region` -/",
+              "def workspace : List Delegation :=",
+              "  [" + ", ".join('⟨"%s", %s⟩' % (m, lean_bool(ok)) for m, ok in d["workspace"]) + "]",
+              "", "end Scenic.Gen.RegionOps"]
     return "\n".join(lines) + "\n"
 
 
